@@ -367,6 +367,32 @@ func TestVerifServerKeyspaces(t *testing.T) {
 					rec.Distinct(fmt.Sprintf("%v:edge:%s", mangle, inst))
 				}
 			}
+			// malformed action digests are refused whether or not keys are mangled (the mangled key of a
+			// malformed hash would be a well-formed one), and (k, "xI") does not answer for (k+"x", "I")
+			if validateAC {
+				k := vSha(rng.Bytes(16))
+				ar := &pb.ActionResult{ExitCode: 3, OutputSymlinks: []*pb.OutputSymlink{{Path: "l", Target: "t"}}}
+				if ok, det := f.vPutAC("grpc", k, "xI", ar); !ok {
+					rec.Violation("C15", "keys.put-failed", "upload under instance xI failed: "+det, nil)
+				}
+				for _, bad := range []string{k + "x", k[:63], strings.ToUpper(k), "zz" + k[2:], ""} {
+					for _, inst := range []string{"I", "xI", ""} {
+						rec.Case()
+						_, gerr := f.ac.GetActionResult(ctx, &pb.GetActionResultRequest{InstanceName: inst, ActionDigest: &pb.Digest{Hash: bad, SizeBytes: 1}})
+						_, uerr := f.ac.UpdateActionResult(ctx, &pb.UpdateActionResultRequest{InstanceName: inst, ActionDigest: &pb.Digest{Hash: bad, SizeBytes: 1}, ActionResult: proto.Clone(ar).(*pb.ActionResult)})
+						rec.Count(fmt.Sprintf("malformed-digest.mangle=%v.get=%s.update=%s", mangle, status.Code(gerr), status.Code(uerr)))
+						rec.Distinct(fmt.Sprintf("%v:malformed:%d:%s", mangle, len(bad), inst))
+						if gerr == nil {
+							rec.Violation("C15", "keys.malformed-digest-hit", fmt.Sprintf("mangling=%v: GetActionResult for the malformed action digest %q under instance %q hits (an entry exists under (%s, \"xI\"))", mangle, bad, inst, k), nil)
+						} else if status.Code(gerr) != codes.InvalidArgument {
+							rec.Violation("C15,C14", "keys.malformed-digest-status", fmt.Sprintf("mangling=%v: GetActionResult for the malformed action digest %q under instance %q answers %s, want INVALID_ARGUMENT", mangle, bad, inst, status.Code(gerr)), nil)
+						}
+						if uerr == nil {
+							rec.Violation("C15,C14", "keys.malformed-digest-stored", fmt.Sprintf("mangling=%v: UpdateActionResult under the malformed action digest %q and instance %q was accepted", mangle, bad, inst), nil)
+						}
+					}
+				}
+			}
 			// the empty blob's hash as a key of the action caches: no entry there unless one was stored
 			{
 				rec.Case()
